@@ -3,34 +3,13 @@
 (* the model state after every prefix.  A layout is a sequence of statements;  *)
 (* a statement is a single line or a block of one verb, items carry comment    *)
 (* identities.  Flatten gives the model state the layout denotes.              *)
-EXTENDS ModfileModel, Json
+EXTENDS ModfileLayout, Json
 CONSTANTS MaxOps,        \* length of operation sequences
           LayoutSet,     \* "small" | "full" | "pairs"
           Kind           \* "mod" | "work"
 VARIABLES phase, verb, lay, m, ops, trail
 
-Stmt(v, form, bc, items) == [verb |-> v, form |-> form, bc |-> bc, items |-> items]
-Line1(v, item) == Stmt(v, "line", "", <<item>>)
-
-\* ------------------------------------------------------------ flatten a layout into a model state
-JoinNL(a, b) == IF a = "" THEN b ELSE IF b = "" THEN a ELSE a \o "\n" \o b
-RatOf(st, it) == LET own == JoinNL(it.cb, it.cs) IN IF own # "" THEN own ELSE IF st.form = "block" THEN st.bc ELSE ""
-AddItem(mm, st, it) ==
-    CASE st.verb = "module"    -> [mm EXCEPT !.mod = it.v]
-      [] st.verb = "go"        -> [mm EXCEPT !.gov = it.v]
-      [] st.verb = "toolchain" -> [mm EXCEPT !.tc = it.v]
-      [] st.verb = "require"   -> [mm EXCEPT !.require = Append(@, it)]
-      [] st.verb = "exclude"   -> [mm EXCEPT !.exclude = Append(@, it)]
-      [] st.verb = "replace"   -> [mm EXCEPT !.replace = Append(@, it)]
-      [] st.verb = "retract"   -> [mm EXCEPT !.retract = Append(@, Ret(it.lo, it.hi, RatOf(st, it)))]
-      [] st.verb = "tool"      -> [mm EXCEPT !.tool = Append(@, it)]
-      [] st.verb = "godebug"   -> [mm EXCEPT !.godebug = Append(@, it)]
-      [] st.verb = "use"       -> [mm EXCEPT !.use = Append(@, it)]
-RECURSIVE AddItems(_, _, _)
-AddItems(mm, st, its) == IF its = <<>> THEN mm ELSE AddItems(AddItem(mm, st, Head(its)), st, Tail(its))
-RECURSIVE FlattenFrom(_, _)
-FlattenFrom(mm, l) == IF l = <<>> THEN mm ELSE FlattenFrom(AddItems(mm, Head(l), Head(l).items), Tail(l))
-Flatten(l) == FlattenFrom(EmptyFile(Kind), l)
+Flatten(l) == FlattenK(Kind, l)
 
 \* ------------------------------------------------------------ the layout family
 Val(v, cb, cs) == [v |-> v, cb |-> cb, cs |-> cs]
